@@ -53,6 +53,31 @@ pub struct Case {
     pub build: Build,
     pub n: u8,
     pub steps: Vec<Step>,
+    /// bounded-preemption sweep over a pause-free history (every placement of one pause)
+    #[serde(default, skip_serializing_if = "Option::is_none")]
+    pub sweep: Option<u8>,
+}
+
+impl Step {
+    fn with_pause(&self, k: u8) -> Option<Step> {
+        let pause = Some(k);
+        Some(match *self {
+            Step::Get { .. } => Step::Get { pause },
+            Step::TryGet { .. } => Step::TryGet { pause },
+            Step::TimeoutGet0 { .. } => Step::TimeoutGet0 { pause },
+            Step::Add { .. } => Step::Add { pause },
+            Step::TryAdd { .. } => Step::TryAdd { pause },
+            Step::ReAdd { o, .. } => Step::ReAdd { o, pause },
+            Step::Remove { .. } => Step::Remove { pause },
+            Step::TryRemove { .. } => Step::TryRemove { pause },
+            Step::Take { h, .. } => Step::Take { h, pause },
+            Step::Return { h, .. } => Step::Return { h, pause },
+            Step::Poll { f, .. } => Step::Poll { f, pause },
+            Step::PollWoken { .. } => Step::PollWoken { pause },
+            Step::Close { .. } => Step::Close { pause },
+            _ => return None,
+        })
+    }
 }
 
 // ---------------------------------------------------------------- ground truth
@@ -1295,8 +1320,131 @@ fn case(prop: &str, thorough: bool) -> BoxedStrategy<Case> {
         0u8..=4,
         prop::collection::vec(step(prop), 1..=maxlen),
     )
-        .prop_map(|(build, n, steps)| Case { build, n, steps })
+        .prop_map(|(build, n, steps)| Case { build, n, steps, sweep: None })
         .boxed()
+}
+
+fn strip_pauses(s: Step) -> Step {
+    match s {
+        Step::Get { .. } => Step::Get { pause: None },
+        Step::TryGet { .. } => Step::TryGet { pause: None },
+        Step::TimeoutGet0 { .. } => Step::TimeoutGet0 { pause: None },
+        Step::Add { .. } => Step::Add { pause: None },
+        Step::TryAdd { .. } => Step::TryAdd { pause: None },
+        Step::ReAdd { o, .. } => Step::ReAdd { o, pause: None },
+        Step::Remove { .. } => Step::Remove { pause: None },
+        Step::TryRemove { .. } => Step::TryRemove { pause: None },
+        Step::Take { h, .. } => Step::Take { h, pause: None },
+        Step::Return { h, .. } => Step::Return { h, pause: None },
+        Step::Poll { f, .. } => Step::Poll { f, pause: None },
+        Step::PollWoken { .. } => Step::PollWoken { pause: None },
+        Step::Close { .. } => Step::Close { pause: None },
+        Step::Resume { .. } => Step::Status,
+        s => s,
+    }
+}
+
+fn sweep_case(prop: &str, thorough: bool) -> BoxedStrategy<Case> {
+    let maxlen = if thorough { 12 } else { 9 };
+    (
+        prop_oneof![Just(Build::New), Just(Build::FromConfig), Just(Build::FromVec)],
+        0u8..=3,
+        prop::collection::vec(step(prop), 2..=maxlen),
+    )
+        .prop_map(|(build, n, steps)| Case {
+            build,
+            n,
+            steps: steps.into_iter().map(strip_pauses).collect(),
+            sweep: Some(1),
+        })
+        .boxed()
+}
+
+/// every placement of one pause in a pause-free history
+fn run_sweep(ctx: &Ctx, case: &Case) -> Report {
+    let mut base = case.clone();
+    base.sweep = None;
+    // learn how many schedule points each step passes
+    let it = Interp::new(ctx, &base);
+    let world = it.world.clone();
+    let first = it.run();
+    let mut rep = Report::default();
+    rep.executions = 1;
+    rep.labels = first.labels.clone();
+    if first.violation.is_some() || first.inconclusive.is_some() {
+        rep.violation = first.violation;
+        rep.inconclusive = first.inconclusive;
+        return rep;
+    }
+    let mut counts = vec![0usize; base.steps.len()];
+    {
+        let w = world.w();
+        let mut cur: Option<usize> = None;
+        for l in &w.log {
+            if let Some(rest) = l.strip_prefix("Step ") {
+                cur = rest.split(' ').next().and_then(|n| n.parse().ok());
+            } else if l.starts_with("Point") {
+                if let Some(i) = cur {
+                    if i < counts.len() {
+                        counts[i] += 1;
+                    }
+                }
+            }
+        }
+    }
+    let n = base.steps.len();
+    for i in 0..n {
+        for k in 0..counts[i].min(10) {
+            let Some(paused) = base.steps[i].with_pause(k as u8) else { continue };
+            let max_j = (n - 1 - i).min(4);
+            for j in 0..=max_j {
+                let mut steps = base.steps.clone();
+                steps[i] = paused;
+                if j > 0 {
+                    steps.insert(i + j + 1, Step::Resume { p: 0, pause: None });
+                }
+                let sub = Case {
+                    build: base.build,
+                    n: base.n,
+                    steps,
+                    sweep: None,
+                };
+                let r = Interp::new(ctx, &sub).run();
+                rep.executions += 1;
+                for l in r.labels {
+                    if l.starts_with("park:") {
+                        rep.labels.push(l);
+                    }
+                }
+                if r.nontrivial {
+                    rep.sub_nontrivial.push(vcore::drive::hash_json(&sub));
+                }
+                if let Some(w) = r.inconclusive {
+                    rep.inconclusive = Some(w);
+                    return rep;
+                }
+                if let Some(v) = r.violation {
+                    rep.violation = Some(Violation {
+                        oracle: v.oracle,
+                        step: v.step,
+                        detail: format!(
+                            "sweep placement (step {}, point {}, resume after {}): {} | concrete case: {}",
+                            i,
+                            k,
+                            j,
+                            v.detail,
+                            serde_json::to_string(&sub).unwrap_or_default()
+                        ),
+                        trace: v.trace,
+                    });
+                    return rep;
+                }
+            }
+        }
+    }
+    rep.labels.sort();
+    rep.labels.dedup();
+    rep
 }
 
 pub struct Usim;
@@ -1327,15 +1475,26 @@ impl Engine for Usim {
 
     fn stages(ctx: &Ctx) -> Vec<Stage<Case>> {
         let thorough = ctx.tier == Tier::Thorough;
-        vec![Stage {
-            name: "random".into(),
-            cases: if thorough { 16 * 30000 } else { 16 * 1500 },
-            strategy: case(&ctx.prop, thorough),
-        }]
+        vec![
+            Stage {
+                name: "random".into(),
+                cases: if thorough { 16 * 30000 } else { 16 * 1500 },
+                strategy: case(&ctx.prop, thorough),
+            },
+            Stage {
+                name: "sweep".into(),
+                cases: if thorough { 16 * 600 } else { 16 * 40 },
+                strategy: sweep_case(&ctx.prop, thorough),
+            },
+        ]
     }
 
     fn run(ctx: &Ctx, case: &Case) -> Report {
-        Interp::new(ctx, case).run()
+        if case.sweep.is_some() {
+            run_sweep(ctx, case)
+        } else {
+            Interp::new(ctx, case).run()
+        }
     }
 }
 
